@@ -1590,6 +1590,12 @@ func init() {
 			if k%3 == 1 {
 				startupForeignFields(c, tmp, id, cfg, k/3, 6)
 			}
+			// 5. the node-level path (s_genesis_node.go): node.NewNode on genesis FILES, several nodes in this one process - same path
+			//    with other contents, other path with the same contents, start on the database of the other configuration
+			//    (at most 60 scenarios per run: a node that was initialised but not started cannot be stopped completely, see nodeStart)
+			if prev != nil && (k%10 == 2 || (k == 1 && nCfg < 3)) && c.Stats["node-path-scenario"] < 60 {
+				nodeGenesisPath(c, tmp, id, prev, cfg, 3)
+			}
 			prev = cfg
 		}
 	})
